@@ -250,7 +250,13 @@ def gen_cases(seed, tier):
 
     def hv(pw, rep, kind=None):
         stats['glue_client_version_login'] += 1
-        return 'HV %s %s %s' % (hexs(pw), hexs(rep), kind or rng.choice('NT'))
+        kd = kind or rng.choice('NT')
+        if rng.randrange(3) == 0:
+            # lower case: the first login reply is text the client cannot use ("BADLEN"): it retries, and the login it sends again
+            # (the one reported) must still be the documented response
+            kd = kd.lower()
+            stats['glue_client_login_retry'] = stats.get('glue_client_login_retry', 0) + 1
+        return 'HV %s %s %s' % (hexs(pw), hexs(rep), kd)
 
     def hf(pw, rep, ans, kind=None):
         stats['glue_client_full_handshake'] += 1
@@ -668,6 +674,7 @@ def check(rep):
         t0 = time.time()
         # the model has no second client: a lower-case SV kind (second version request in between) is predicted by the plain case
         mcases = [re.sub(r'^(SV \S+ \S+ \S+) ([nt]) ', lambda m: '%s %s ' % (m.group(1), m.group(2).upper()), c) for c in cases]
+        mcases = [re.sub(r'^(HV \S+ \S+) ([nt])$', lambda m: '%s %s' % (m.group(1), m.group(2).upper()), c) for c in mcases]
         rc, mod, err = run_sharded(ctx.model, mcases, ctx.work, 'model')
         rep.cov['model_wall_s'] = round(time.time() - t0, 2)
         if rc != 0:
